@@ -169,7 +169,11 @@ func (a *allocation) createPermission(perm *permission, addr net.Addr) error {
 	if perm.state() == permStateIdle {
 		// Punch a hole! (this would block a bit..)
 		if err := a.CreatePermissions(addr); err != nil {
-			a.permMap.delete(addr)
+			// On a stale nonce the caller tries again with this very permission:
+			// it must stay in the map, or it would never be refreshed afterwards.
+			if !errors.Is(err, errTryAgain) {
+				a.permMap.delete(addr)
+			}
 
 			return err
 		}
